@@ -301,12 +301,16 @@ pub fn run(ws: &[&str]) -> String {
                 _ => return BAD.into(),
             };
             match a2 {
-                "A" | "R" => {
+                "A" | "R" | "AF" | "AFR" | "RF" | "RFR" => {
                     let client = base_client!(BasicClient).set_revocation_url(url);
-                    let tok = if a2 == "A" {
-                        StandardRevocableToken::AccessToken(AccessToken::new(t))
-                    } else {
-                        StandardRevocableToken::RefreshToken(RefreshToken::new(t))
+                    // the enum variants and the four From conversions (owned / by reference)
+                    let tok: StandardRevocableToken = match a2 {
+                        "A" => StandardRevocableToken::AccessToken(AccessToken::new(t)),
+                        "R" => StandardRevocableToken::RefreshToken(RefreshToken::new(t)),
+                        "AF" => AccessToken::new(t).into(),
+                        "AFR" => (&AccessToken::new(t)).into(),
+                        "RF" => RefreshToken::new(t).into(),
+                        _ => (&RefreshToken::new(t)).into(),
                     };
                     match client.revoke_token(tok) {
                         Ok(req) => finish!(req),
